@@ -5,3 +5,7 @@ import SsqlVerif.Props.C10
 #print axioms C10.gap_splits
 #print axioms C10.open_sessions_apart
 #print axioms C10.joins_exactly_the_touched
+#print axioms C10.inorder_outcome_is_reference
+#print axioms C10.reference_ignores_schedule
+#print axioms C10.schedule_independent
+#print axioms C10.delivered_is_reference_after_flush
